@@ -185,3 +185,28 @@ def wraperr_program(raise_kind, resumer, catcher):
                p.emit([p.str("r2"), p.call(co("resume"), [p.id("me"), p.num(3)])]),
                p.emit([p.str("st"), p.call(co("status"), [p.id("me")])])]
     return p, p.block(ss)
+
+
+def bottom_tail_program(level, where, kind):
+    """error(msg, level) from a function that was TAIL-called by the bottom function of a coroutine /
+    of a protected call: there is no caller frame left to name; the error must still be an ordinary one"""
+    p = Prog()
+    co = lambda n: p.field(p.id("coroutine"), n)
+    val = {"str": lambda: p.str("bad"), "tab": lambda: p.table([]), "nil": lambda: p.nil()}[kind]
+    args = [val()] + ([p.num(level)] if level is not None else [])
+    check = p.func(["x"], p.block([p.callstat(p.call(p.id("error"), args))]))
+    mid = p.func(["x"], p.block([p.ret([p.call(p.id("check"), [p.id("x")])])]))
+    ss = [p.localfunction("check", check), p.localfunction("mid", mid)]
+    bottom = lambda: p.func(["x"], p.block([p.ret([p.call(p.id("mid"), [p.id("x")])])]))
+    if where == "wrap":
+        ss.append(p.emit([p.str("r"), p.call(p.id("pcall"), [p.call(co("wrap"), [bottom()]), p.num(1)])]))
+    elif where == "resume":
+        ss.append(p.emit([p.str("r"), p.call(co("resume"), [p.call(co("create"), [bottom()]), p.num(1)])]))
+    elif where == "pcall":
+        ss.append(p.emit([p.str("r"), p.call(p.id("pcall"), [bottom(), p.num(1)])]))
+    elif where == "xpcall":
+        ss.append(p.emit([p.str("r"), p.call(p.id("xpcall"), [p.func([], p.block([p.ret([p.call(p.id("mid"), [p.num(1)])])])), p.func(["m"], p.block([p.ret([p.call(p.id("type"), [p.id("m")])])]))])]))
+    elif where == "gcall":
+        ss.append(p.emit([p.str("r"), p.call(p.id("pcall"), [p.id("gcall"), bottom(), p.num(1)])]))
+    ss.append(p.emit([p.str("after"), p.call(p.id("pcall"), [p.id("check"), p.num(2)])]))
+    return p, p.block(ss)
